@@ -142,7 +142,7 @@ def decoder():
                     res.extend(byte)
                     byte = yield
                     res.extend(byte)
-                    byte = yield res.decode("ascii")
+                    byte = yield res.decode("latin-1")
                     break
         elif byte == b"+" or byte == b"-":
             byte = yield byte.decode("ascii")
